@@ -51,8 +51,17 @@ SliceIntsOf(inputs) ==
        steps == IF IsNil(In_(inputs, 5)) THEN [i \in 1..n |-> 1] ELSE inputs[5].data
    IN SemSliceInts(inputs[1], inputs[2].data, inputs[3].data, axes, steps)
 
+\* element types for which the properties demand a computed result; for any other accepted type the operator may refuse
+AllTypes == {"f32", "f64", "i8", "i16", "i32", "i64", "u8", "u16", "u32", "u64", "bool"}
+CoreTypes(op) ==
+   CASE op \in IntBinOps \cup IntCmpOps -> {"f32", "f64", "i32", "i64"}
+     [] op \in {"Relu", "Abs"} -> {"f32", "f64"}
+     [] op \in {"Gemm", "MatMul", "Scaler", "LinearRegressor", "RNN", "GRU", "LSTM"} -> {"f32"}
+     [] op = "Conv" -> {"f32", "f64"}
+     [] op \in {"ReduceMax", "ReduceMin", "ArgMax"} -> {"f32", "f64", "i32", "i64"}
+     [] OTHER -> AllTypes
 \* nout: number of outputs the node declares (matters only for multi-output operators)
-NodeSem(op, attrs, inputs, nout) ==
+NodeSem0(op, attrs, inputs, nout) ==
    CASE op \in IntBinOps   -> SemIntBinary(op, inputs[1], inputs[2])
      [] op \in {"Relu", "Abs"} -> SemIntUnary(op, inputs[1])
      [] op \in IntCmpOps   -> SemIntCompare(op, inputs[1], inputs[2])
@@ -77,4 +86,6 @@ NodeSem(op, attrs, inputs, nout) ==
      [] op = "ArgMax"    -> SemArgMax(inputs[1], attrs)
      [] op = "Scaler"    -> SemScaler(inputs[1], attrs)
      [] op = "LinearRegressor" -> SemLinearRegressor(inputs[1], attrs)
+NodeSem(op, attrs, inputs, nout) ==
+   Weaken(Len(inputs) >= 1 /\ ~IsNil(inputs[1]) /\ inputs[1].dt \notin CoreTypes(op), NodeSem0(op, attrs, inputs, nout))
 =============================================================================
